@@ -46,8 +46,44 @@ pub fn dispatch(cmd: &str, args: &Args) -> Option<i32> {
 // font size (C17's function), so when the list has the same shape as `run`'s output the amounts shown
 // to TLC are `run`'s, otherwise the list is shown as it is (and cannot be accepted).
 // ------------------------------------------------------------------------------------------
-fn text_words(args: &Args) -> i32 {
+/// One word run directly and through add_word with font number `font` active.
+fn one_word(tp: &mut boxworks_text::TextPreprocessorImpl, cp: &CompiledProgram, w: &[u8], font: u32) -> (Value, Value) {
     use boxworks::ds;
+    use boxworks::TextPreprocessor;
+    let spec = RunSpec { w: w.to_vec(), nl: false, ro: None };
+    let direct = run_json(cp, &spec);
+    let word: String = w.iter().map(|b| *b as char).collect();
+    let listed = catch(|| {
+        let mut list: Vec<ds::Horizontal> = vec![];
+        tp.add_word(&word, &mut list);
+        list
+    });
+    let mut via = json!({"w": w, "nl": 0, "ro": 256, "via": "add_word"});
+    match listed {
+        Err((site, msg)) => via["panic"] = json!([site, msg]),
+        Ok(list) => {
+            // a node that names another font than the active one is shown as such (kind 8)
+            let items: Vec<Value> = list
+                .iter()
+                .map(|n| match n {
+                    ds::Horizontal::Char(c) if c.font != font => json!([8, c.font]),
+                    ds::Horizontal::Ligature(l) if l.font != font => json!([8, l.font]),
+                    ds::Horizontal::Char(c) => json!([0, c.char as u32]),
+                    ds::Horizontal::Ligature(l) => json!([1, l.char as u32,
+                        l.original_chars.chars().map(|c| c as u32).collect::<Vec<_>>(),
+                        l.includes_left_boundary as u8, l.includes_right_boundary as u8]),
+                    ds::Horizontal::Kern(k) => json!([2, k.width.0]),
+                    _ => json!([9, 0]),
+                })
+                .collect();
+            let same_shape = direct["out"].as_array().map(|d| d.len() == items.len() && d.iter().zip(items.iter()).all(|(a, b)| a == b));
+            via["out"] = if same_shape == Some(true) { direct["out"].clone() } else { Value::Array(items) };
+        }
+    }
+    (direct, via)
+}
+
+fn text_words(args: &Args) -> i32 {
     use boxworks::TextPreprocessor;
     quiet_panics();
     let seed: u64 = args.num("seed", 1);
@@ -60,6 +96,7 @@ fn text_words(args: &Args) -> i32 {
     let words = words_upto(LETTERS, 3);
     let mut made = 0;
     let mut guard = 0;
+    let mut group: Vec<(Value, tfm::File, CompiledProgram)> = vec![];
     while made < nfonts && guard < nfonts * 20 {
         guard += 1;
         let bc: Option<u8> = match rng.below(3) {
@@ -128,46 +165,43 @@ fn text_words(args: &Args) -> i32 {
         tp.activate_font(0);
         let mut rs: Vec<Value> = vec![];
         for w in &words {
-            let spec = RunSpec { w: w.clone(), nl: false, ro: None };
-            let direct = run_json(&cp, &spec);
-            let word: String = w.iter().map(|b| *b as char).collect();
-            let listed = catch(|| {
-                let mut list: Vec<ds::Horizontal> = vec![];
-                tp.add_word(&word, &mut list);
-                list
-            });
-            let mut via = json!({"w": w, "nl": 0, "ro": 256, "via": "add_word"});
-            match listed {
-                Err((site, msg)) => via["panic"] = json!([site, msg]),
-                Ok(list) => {
-                    let items: Vec<Value> = list
-                        .iter()
-                        .map(|n| match n {
-                            ds::Horizontal::Char(c) => json!([0, c.char as u32]),
-                            ds::Horizontal::Ligature(l) => json!([1, l.char as u32,
-                                l.original_chars.chars().map(|c| c as u32).collect::<Vec<_>>(),
-                                l.includes_left_boundary as u8, l.includes_right_boundary as u8]),
-                            ds::Horizontal::Kern(k) => json!([2, k.width.0]),
-                            _ => json!([9, 0]),
-                        })
-                        .collect();
-                    let shape = |v: &Value| -> Value {
-                        if v[0] == 2 {
-                            json!([2])
-                        } else {
-                            v.clone()
-                        }
-                    };
-                    let same_shape = direct["out"].as_array().map(|d| {
-                        d.len() == items.len() && d.iter().zip(items.iter()).all(|(a, b)| shape(a) == shape(b))
-                    });
-                    via["out"] = if same_shape == Some(true) { direct["out"].clone() } else { Value::Array(items) };
-                }
-            }
+            let (direct, via) = one_word(&mut tp, &cp, w, 0);
             rs.push(direct);
             rs.push(via);
         }
         out.line(&json!({"p": pj, "tag": "text-font", "errs": errs_json(&errs), "runs": rs}));
+        group.push((pj, file, cp));
+        // one preprocessor, three fonts: the same words come back after every change of font (and in the
+        // same font again), so anything a call leaves behind for the next one is seen
+        if group.len() == 3 {
+            let mut tp = boxworks_text::TextPreprocessorImpl::new(boxworks_text::Params::plain_tex_defaults());
+            let nums = [0u32, 1, 2];
+            for (i, (_, file, cp)) in group.iter().enumerate() {
+                tp.register_font(nums[i], file, cp.clone());
+            }
+            let mut per: Vec<Vec<Value>> = vec![vec![], vec![], vec![]];
+            let some: Vec<&Vec<u8>> = (0..12).map(|_| &words[rng.below(words.len() as u64) as usize]).collect();
+            for round in 0..4 {
+                for step in 0..3 {
+                    let i = (round + step * (1 + round % 2)) % 3;
+                    tp.activate_font(nums[i]);
+                    for w in &some {
+                        let (direct, via) = one_word(&mut tp, &group[i].2, w, nums[i]);
+                        per[i].push(direct);
+                        per[i].push(via);
+                        if rng.chance(1, 3) {
+                            let (direct, via) = one_word(&mut tp, &group[i].2, w, nums[i]);
+                            per[i].push(direct);
+                            per[i].push(via);
+                        }
+                    }
+                }
+            }
+            for (i, (pj, _, _)) in group.iter().enumerate() {
+                out.line(&json!({"p": pj, "tag": "text-shared", "errs": [], "runs": per[i]}));
+            }
+            group.clear();
+        }
     }
     out.flush();
     eprintln!("c05-text: {made} fonts x {} words x 2 roads", words.len());
